@@ -140,5 +140,5 @@ pub fn case(tape: &[u8], ctx: &Ctx) -> Outcome {
 }
 
 pub fn property() -> Property {
-    Property { id: "C04", rule: RULE, phases: vec![Phase::Prop { name: "byte strings x 4 schedules", f: case, quick: 30_000, thorough: 1_200_000, max_tape: 400 }] }
+    Property { id: "C04", rule: RULE, phases: vec![Phase::Prop { name: "byte strings x 4 schedules", f: case, quick: 200_000, thorough: 2_000_000, max_tape: 400 }] }
 }
